@@ -291,6 +291,67 @@ class WSModel:
                 return m
         return None
 
+    def call_env(self, func: Func, c: ast.Call, m: Func, env) -> Dict[str, Optional[str]]:
+        """event types of the arguments of the self-method call `c` (callee parameter -> folded type | None)"""
+        mparams = [a for a in m.params() if a != 'self']
+        cenv: Dict[str, Optional[str]] = {}
+        for i, a in enumerate(c.args):
+            if isinstance(a, ast.Starred) or i >= len(mparams):
+                break
+            cenv[mparams[i]] = self.event_type(func, a, env)
+        for kw in c.keywords:
+            if kw.arg is not None:
+                cenv[kw.arg] = self.event_type(func, kw.value, env)
+        return cenv
+
+    def emit_nodes(self, func: Func, etype: str) -> List[int]:
+        """CFG nodes of `func` through which an event of type `etype` can be put on the raw send
+        (directly, or inside a method of the state machine called there)."""
+        cfg = cfg_of(func, self.p)
+        out = []
+        for n in cfg.live_nodes():
+            hit = False
+            for c in n.calls():
+                if self.is_raw_send_call(c):
+                    hit = hit or (len(c.args) == 1 and self.event_type(func, c.args[0], {}) == etype)
+                    continue
+                m = self._self_method(func, c)
+                if m is None:
+                    continue
+                cenv = self.call_env(func, c, m, {})
+                hit = hit or any(em[0] == etype for cell in self.all_cells() for em in self.analyse(m, cell, cenv).emits)
+            if hit:
+                out.append(n.id)
+        return out
+
+    def _sets_state_to(self, func: Func, stmt, member: str) -> bool:
+        if isinstance(stmt, ast.Assign) and len(stmt.targets) == 1 and self.is_state(stmt.targets[0]):
+            return self._member(func, stmt.value) == member
+        if isinstance(stmt, ast.AnnAssign) and self.is_state(stmt.target):
+            return self._member(func, stmt.value) == member
+        return False
+
+    def state_write_stmts(self, func: Func, member: str, depth=0) -> List[ast.AST]:
+        """Simple statements of `func` after whose normal completion the state attribute may have been set
+        to `member`: the assignment itself, or a statement calling a method of the state machine that
+        (transitively, two levels) contains such an assignment."""
+        cfg = cfg_of(func, self.p)
+        out = []
+        seen = set()
+        for n in cfg.live_nodes():
+            if n.kind != 'stmt' or n.ast is None or id(n.ast) in seen:
+                continue
+            hit = self._sets_state_to(func, n.ast, member)
+            if not hit and depth < 2:
+                for c in n.calls():
+                    m = self._self_method(func, c)
+                    if m is not None and m is not func and self.state_write_stmts(m, member, depth + 1):
+                        hit = True
+            if hit:
+                seen.add(id(n.ast))
+                out.append(n.ast)
+        return out
+
     def _writes_state(self, node_ast) -> List[ast.AST]:
         return [x for x in walk_self(node_ast) if isinstance(x, ast.Attribute) and x.attr == self.state_attr
                 and isinstance(x.ctx, (ast.Store, ast.Del)) and isinstance(x.value, ast.Name) and x.value.id == 'self']
@@ -335,15 +396,7 @@ class WSModel:
                 m = self._self_method(func, c)
                 if m is None:
                     continue
-                mparams = [a for a in m.params() if a != 'self']
-                cenv = {}
-                for i, a in enumerate(c.args):
-                    if isinstance(a, ast.Starred) or i >= len(mparams):
-                        break
-                    cenv[mparams[i]] = self.event_type(func, a, env)
-                for kw in c.keywords:
-                    if kw.arg is not None:
-                        cenv[kw.arg] = self.event_type(func, kw.value, env)
+                cenv = self.call_env(func, c, m, env)
                 new_after = set()
                 for cl in after:
                     r = self.analyse(m, cl, cenv)
